@@ -32,7 +32,9 @@ RULE = ("density: Hypothesis draws a compound derivation tree over all atom clas
         "isotope ion), a density in (0, 30] and one of ten routes (density= / natural_density= keyword on a string, "
         "a Formula, a dict or a structure; attribute assignment; '@d' '@dn' '@di' tags); oracle: density and "
         "natural_density equal d or d*/ratio with ratio = sum n*(element mass - q*m_e) / sum n*(atom mass) computed "
-        "in Fractions, then both setters are inverted with a second value; non-trivial = the formula holds an isotope "
+        "in Fractions, then a generated history of 2..8 assignments (density / natural_density, "
+        "values from a pool of three so that repeats are frequent) runs on the same object with both attributes checked "
+        "after every step, and both setters are inverted once more; non-trivial = the formula holds an isotope "
         "and an ion (or an isotope ion). single: sweep of all elements, isotopes and element ions plus generated "
         "isotope ions, each as string, atom object and structure, oracle = the atom's own density; non-trivial = "
         "isotope or ion. replace: tree with or without density, source/target drawn from the formula's atoms or from "
@@ -177,6 +179,24 @@ def check_density(ctx, value):
     if not close(f.natural_density, want_n, tol):
         raise Violation(b + ":natural_density", "%r via %s: natural_density %r expected %.17g (ratio %.17g)"
                         % (s, route, f.natural_density, want_n, ratio), case)
+    # a history of assignments on this one object: after every step both
+    # attributes are what the last assignment says (values repeat on purpose)
+    pool = [d, value["d2"], 1.0]
+    hist = []
+    for attr, k in value.get("seq", []):
+        x = pool[k % len(pool)]
+        hist.append("%s=%r" % ("natural_density" if attr == "n" else "density", x))
+        if attr == "n":
+            f.natural_density = x
+            wd, wn = x / ratio, x
+        else:
+            f.density = x
+            wd, wn = x, x * ratio
+        if f.density is None or not close(f.density, wd, tol) or not close(f.natural_density, wn, tol):
+            rep = len(hist) >= 2 and hist[-1] in hist[:-1]
+            raise Violation("c12:density:sequence:" + ("repeated-value" if rep else "step"),
+                            "%r via %s, then %s: density %r natural_density %r expected %.17g and %.17g (ratio %.17g)"
+                            % (s, route, "; ".join(hist), f.density, f.natural_density, wd, wn, ratio), case)
     # setting one and reading the other inverts
     f.natural_density = d2
     if not close(f.density, d2 / ratio, tol) or not close(f.natural_density, d2, tol):
@@ -445,6 +465,7 @@ def task_density(ctx, n, depth):
         "d": positive(), "d2": positive(),
         "dstr": fa.count_str(allow_none=False, max_int=30),
         "route": st.just("all"),
+        "seq": st.lists(st.tuples(st.sampled_from(["n", "d", "n"]), st.integers(0, 2)).map(list), min_size=2, max_size=8),
         "table": st.sampled_from(["public", "private"]),
     })
     ctx.search("density", strat, check_density, n)
